@@ -8,7 +8,7 @@
    allocation failure and stack depth are exercised by the malformed-input stream of the
    correspondence (debug build), not proved. *)
 From WB Require Import Base.Str Base.Json Model.Key Model.Store Model.Entry Model.Core Model.Codec Model.Session
-  Proofs.CoreFacts Proofs.C01Proof Proofs.C17Proof Proofs.SessionFacts Proofs.LockHistory Proofs.NoCrash.
+  Proofs.CoreFacts Proofs.C01Proof Proofs.C17Proof Proofs.SessionFacts Proofs.LockHistory Proofs.NoCrash Proofs.WorldCore.
 
 Theorem C17_data_request_no_crash :
   forall s o, Inv s -> c01_op o -> import_ok o ->
@@ -54,6 +54,28 @@ Proof. exact request_keeps_session. Qed.
 Print Assumptions C17_request_keeps_session.
 
 (* the boundary the hypothesis excludes (known finding F17) *)
+(* at the level of the sockets (Proofs/WorldCore.v).  [sstep] handles one event of the world -- a line on a socket (decoded
+   or garbage), an authorization request, a connection opening or closing; every event runs at most one core request
+   ([ops_of], C17_one_core_request_per_event), so the core after any history of events is the core after the history of
+   those requests, and none of them crashes: requests of every kind of both protocol versions, with or without
+   authorization, from any number of sessions, in any order (the version overflow of F17 excluded by hypothesis) *)
+Theorem C17_one_core_request_per_event :
+  forall w e, w_core (fst (sstep w e)) = final (w_core w) (ops_of w e).
+Proof. exact sstep_core. Qed.
+Print Assumptions C17_one_core_request_per_event.
+
+Theorem C17_world_never_crashes :
+  forall auth es, Forall ev_ok es ->
+    nocrash (trace init (ops_hist (world_init auth) es)) /\ Inv (w_core (wfinal (world_init auth) es)).
+Proof. exact world_never_crashes. Qed.
+Print Assumptions C17_world_never_crashes.
+
+Example C17_world_nonvacuous :
+  let es := [SOpen 0; SOpen 1; SMsg 0 (MSet 1 [97]%N JNull); SGarbage 1; SMsg 1 (MGet 1 [97]%N); SMsg 0 (MCSet 2 [98]%N JNull 7); SAuth 0 None; SClose 0] in
+  Forall ev_ok es /\ ops_hist (world_init false) es =
+    [OConnected 1; OConnected 2; OSet 1 [97]%N JNull false; ODisconnected 2; OCSet 1 [98]%N JNull 7 false; ODisconnected 1].
+Proof. split; [repeat constructor; discriminate|vm_compute; reflexivity]. Qed.
+
 Theorem C17_overflow_refuted : exists cur v, decide cur (Cas v u64_max) false = DCrash.
 Proof. exists (Some (Cas JNull u64_max)), JNull. reflexivity. Qed.
 Print Assumptions C17_overflow_refuted.
